@@ -532,7 +532,7 @@ package vm
 //@   requires runInv(vm, b)
 //@   requires session(vm)
 //@   requires[C08] lockstep(vm)
-//@   modifies everything
+//@   modifies everything except f:engine., ghost:written, ghost:flagcount, f:render.Sizer.outputSize, f:state.State.Code, f:state.State.Flags, f:state.State.BitSize
 //@   ensures @vm vmOk(vm)
 //@   ensures @nowrap noWrap(vm)
 //@   ensures @page render.pageOk(vm.pg)
@@ -541,7 +541,7 @@ package vm
 //@   ensures @session session(vm)
 //@   ensures[C08] @lockstep lockstep(vm)
 //@   ensures[C06,C20] @blocked old(fl(vm, state.FLAG_TERMINATE)) ==> result1 == nil && len(result0) == 0 && untouched(vm)
-//@   loop 1 modifies everything
+//@   loop 1 modifies everything except f:engine., ghost:written, ghost:flagcount, f:render.Sizer.outputSize, f:state.State.Code, f:state.State.Flags, f:state.State.BitSize
 //@   loop 1 invariant @vm vmOk(vm)
 //@   loop 1 invariant @nowrap noWrap(vm)
 //@   loop 1 invariant @page render.pageOk(vm.pg)
@@ -563,7 +563,7 @@ package vm
 //@   serves C01
 //@   requires vmOk(vm) && noWrap(vm) && render.pageOk(vm.pg) && session(vm)
 //@   requires[C08] lockstep(vm)
-//@   modifies everything
+//@   modifies everything except f:engine., ghost:written, ghost:flagcount, f:render.Sizer.outputSize, f:state.State.Code, f:state.State.Flags, f:state.State.BitSize
 //@   ensures @vm vmOk(vm)
 //@   ensures @nowrap noWrap(vm)
 //@   ensures @page render.pageOk(vm.pg)
